@@ -50,6 +50,7 @@ type ClientPlan struct {
 	Errors      bool   `json:"errors,omitempty"`
 	Reverse     bool   `json:"reverse,omitempty"`
 	KeepAlive   bool   `json:"keepalive,omitempty"`
+	Merged      bool   `json:"merged,omitempty"` // the proxy is merged from two structs that share the wire method T.Call
 }
 
 type Op struct {
@@ -112,7 +113,7 @@ func (e *Env) Build(p *Plan) (*World, error) {
 			return nil, fmt.Errorf("client %s: no server %d", cp.Name, cp.Server)
 		}
 		c, err := e.NewClient(cp.Name, w.Servers[cp.Server], ClientOpts{Kind: cp.Kind, NoReconnect: cp.NoReconnect, Ping: cp.PingNs,
-			Timeout: cp.TimeoutNs, BackoffMin: cp.BackoffMin, BackoffMax: cp.BackoffMax, Errors: cp.Errors, Reverse: cp.Reverse, KeepAlive: cp.KeepAlive})
+			Timeout: cp.TimeoutNs, BackoffMin: cp.BackoffMin, BackoffMax: cp.BackoffMax, Errors: cp.Errors, Reverse: cp.Reverse, KeepAlive: cp.KeepAlive, Merged: cp.Merged})
 		if err != nil {
 			return nil, fmt.Errorf("client %s: %w", cp.Name, err)
 		}
